@@ -51,7 +51,7 @@ def model_properties(ctx, n, ph):
     inv = "INIT Init\nNEXT Next\nVIEW View\n" + "".join("INVARIANT %s\n" % i for i in ("TypeOK", "LockSafe", "SharedWhenAttached"))
     r = ctx.tlc("Recovery", "MC_RecoveryConc", "I.cfg", files={"I.cfg": _cfg(n, ph, inv)}, deadlock=True, coverage=True, timeout=1200)
     ctx.require(r.ok, "RecoveryConc: as-is invariants / lock protocol fail (%s %s): specification error\n%s" % (r.error, r.violated, r.stdout[-1500:]))
-    ctx.require_coverage(r, ["FailBuild", "Lock", "Sync", "FinishA", "Rerun"])
+    ctx.require_coverage(r, ["FailBuild", "Lock", "Sync", "StartA", "FinishA", "Rerun"])
     res = {}
     for prop in ("AtMostOncePerLoss", "NoneStuck"):
         q = ctx.tlc("Recovery", "MC_RecoveryConc", "P.cfg", files={"P.cfg": _cfg(n, ph, "INIT Init\nNEXT Next\nVIEW View\nINVARIANT %s\n" % prop)},
@@ -74,13 +74,29 @@ def script_of(b):
         elif ev == "sync":
             script.append("built:" + job[c])
             if b["dec"][c] == "rollback":
-                script.append(S(A))
+                script.append("park:" + S(A))      # the producer is scheduled again (FIREABLE) and held before its stage-in
+        elif ev == "startA":
+            script.append(S(A))                     # ... released: it is staged, becomes RUNNING and is held before completion
         elif ev == "finishA":
             script.append(X(A))
     plan = {}
     for i, c in enumerate(cons):
         plan[(job[c], "schedule" if ph[c] == "s" else "execute")] = ["fail_stop" if i == 0 else "soft", 1]
     return script, plan, job
+
+
+def sync_while_fireable(b):
+    """Some recovery synchronizes while the producer, rolled back by another one, is scheduled but not yet running."""
+    fire = False
+    for ev, c in b["trace"]:
+        if ev == "sync":
+            if fire:
+                return True
+            if b["dec"][c] == "rollback":
+                fire = True
+        elif ev in ("startA", "finishA"):
+            fire = False
+    return False
 
 
 def classify(b):
@@ -143,6 +159,10 @@ def check_behaviour(ctx, b, idx=0):
     cls = "%d:%s" % (b["n"], phs)
     good = True
     # ---- conformance: the real engine must follow the behaviour and agree with the model
+    if obs.get("script_failed") and any(dec.get(c) not in (None, d) for c, d in b["dec"].items()):
+        ctx.violation("c19:model-mismatch:decision:%s" % cls, det, "attach/rollback decisions %s differ from the model %s (the run then left the behaviour: gate %s never parked)" % (
+            dec, b["dec"], obs["script_failed"]))
+        return False
     if obs.get("script_failed"):
         ctx.violation("c19:behaviour-not-followed:%s" % cls, det, "the real engine could not follow the model behaviour: gate %s never parked" % obs["script_failed"])
         return False
@@ -197,6 +217,10 @@ def run(ctx):
         ok = [b for b in bs if "stuck" not in b["pc"].values()]
         rng.shuffle(hang)
         rng.shuffle(ok)
+        hang.sort(key=lambda b: not sync_while_fireable(b))
+        fire = [b for b in ok if sync_while_fireable(b)]
+        ok = fire[:ctx.pick(6, 10 ** 6)] + [b for b in ok if not sync_while_fireable(b)]
+        ctx.count("model_behaviours_sync_while_fireable:%d:%s" % (n, ph), len(fire))
         # behaviours on which the model predicts a hang cost the stall time each: a few of them
         chosen += hang[:ctx.pick(1, 12 if n == 2 else 20)] + ok[:ctx.pick(12, 40 if n == 2 else 150)]
     n_overlap = 0
